@@ -63,6 +63,9 @@ def specs(r, calls=(1, 2, 3)):
                     qs.append((f"spec least {tm_tokens(o['call'], o['timings'][0])} {ref} {due}", {"what": "first_due", "key": k}))
         elif o["op"] == "exec":
             for (k, due_seen, _p) in ob["invoked"]:
+                if not o.get("force"):
+                    # "due exactly at": an ordinary poll never runs a job before the due time it reports
+                    qs.append((f"spec le {due_seen} {o['clock']}", {"what": "not_invoked_before_due", "key": k, "op": i}))
                 if k in jobs:
                     o2 = jobs[k]
                     new = ob["jobs"][k][0]
